@@ -11,7 +11,7 @@
 //
 //	type URL (from proto.RegisterType in the pb.go), file, receiver, handler name,
 //	index of the first statement that compares the authority and rejects, its comparison
-//	kind (`!=`, strings.EqualFold, other), the expression it is compared with,
+//	kind (`!=`, strings.EqualFold, helper whose comparison is not its first statement, other), the expression it is compared with,
 //	whether any call other than the allow-listed pure ones precedes the guard,
 //	and — for the crosschain router — the handler it delegates to.
 //
@@ -260,7 +260,7 @@ func guardOf(s ast.Stmt, req string) (kind, against string, ok bool) {
 // returns an error, after nothing but address-format checks.
 func helperGuardOf(s ast.Stmt, req string, af *ast.File) (kind, against string, ok bool) {
 	ifs, isIf := s.(*ast.IfStmt)
-	if !isIf || ifs.Init == nil || ifs.Else != nil || src(ifs.Cond) != "err != nil" || !returnsError(ifs.Body) {
+	if !isIf || ifs.Init == nil {
 		return
 	}
 	as, isAs := ifs.Init.(*ast.AssignStmt)
@@ -268,44 +268,71 @@ func helperGuardOf(s ast.Stmt, req string, af *ast.File) (kind, against string, 
 		return
 	}
 	call, isCall := as.Rhs[0].(*ast.CallExpr)
-	if !isCall || len(call.Args) != 1 || !mentionsAuthority(call.Args[0], req) {
+	if !isCall {
 		return
 	}
+	argIdx := -1
+	for i, a := range call.Args {
+		if mentionsAuthority(a, req) {
+			argIdx = i
+		}
+	}
 	sel, isSel := call.Fun.(*ast.SelectorExpr)
-	if !isSel {
+	if argIdx < 0 || !isSel {
 		return
+	}
+	name := sel.Sel.Name
+	// the caller must return the helper's error unconditionally
+	if ifs.Else != nil || src(ifs.Cond) != "err != nil" || !returnsError(ifs.Body) {
+		return "CmpOther", name + ": its error is not returned unconditionally (" + src(ifs.Cond) + ")", true
 	}
 	for _, d := range af.Decls {
 		fd, isFd := d.(*ast.FuncDecl)
-		if !isFd || fd.Name.Name != sel.Sel.Name || fd.Body == nil || fd.Type.Params == nil || len(fd.Type.Params.List) != 1 || len(fd.Type.Params.List[0].Names) != 1 {
+		if !isFd || fd.Name.Name != name || fd.Body == nil || fd.Type.Params == nil {
 			continue
 		}
-		param := fd.Type.Params.List[0].Names[0].Name
-		for _, hs := range fd.Body.List {
-			hif, isHif := hs.(*ast.IfStmt)
-			if !isHif {
-				return "CmpOther", sel.Sel.Name, true
-			}
-			if be, isBe := hif.Cond.(*ast.BinaryExpr); isBe && hif.Init == nil && be.Op == token.NEQ {
-				var other ast.Expr
-				if src(be.X) == param {
-					other = be.Y
-				} else if src(be.Y) == param {
-					other = be.X
-				}
-				if other != nil && helperReturnsErr(hif.Body) {
-					return "CmpNeq", src(other), true
-				}
-				return "CmpOther", sel.Sel.Name, true
-			}
-			// allowed before the comparison: an address-format check of the parameter
-			if !strings.Contains(src(hif), "StringToBytes("+param+")") {
-				return "CmpOther", sel.Sel.Name, true
+		var params []string
+		for _, f := range fd.Type.Params.List {
+			for _, n := range f.Names {
+				params = append(params, n.Name)
 			}
 		}
-		return "CmpOther", sel.Sel.Name, true
+		if argIdx >= len(params) {
+			return "CmpOther", name, true
+		}
+		param := params[argIdx]
+		for _, hs := range fd.Body.List {
+			hif, isHif := hs.(*ast.IfStmt)
+			if isHif && hif.Init == nil {
+				if be, isBe := hif.Cond.(*ast.BinaryExpr); isBe && be.Op == token.NEQ {
+					var other ast.Expr
+					if src(be.X) == param {
+						other = be.Y
+					} else if src(be.Y) == param {
+						other = be.X
+					}
+					if other != nil {
+						if helperReturnsErr(hif.Body) {
+							return "CmpNeq", src(other), true
+						}
+						return "CmpOther", name, true
+					}
+				}
+			}
+			// allowed before the comparison: an address-format check of the parameter
+			if isHif && strings.Contains(src(hif), "StringToBytes("+param+")") {
+				continue
+			}
+			// anything else in front of the comparison: the helper may return (an error or nil) before it compares
+			first := src(hs)
+			if i := strings.Index(first, "\n"); i > 0 {
+				first = first[:i]
+			}
+			return "CmpGuardNotFirst", name + ": `" + strings.TrimSpace(first) + "` precedes the comparison", true
+		}
+		return "CmpOther", name, true
 	}
-	return "CmpOther", sel.Sel.Name, true
+	return "CmpOther", name, true
 }
 
 func helperReturnsErr(b *ast.BlockStmt) bool {
